@@ -104,6 +104,32 @@ def expected_state(style, token):
     return (hex_rgb(a['color']), hex_rgb(a['bgcolor']), bool(a['bold']), bool(a['italic']), bool(a['underline']))
 
 
+def expected_blanks(stream, style):
+    """[(bgcolor, underline)] expected for every whitespace character written
+    (blanks inside text, line breaks and indentation): the attributes that show
+    on a blank are those of the innermost enclosing syntax token as well."""
+    out = []
+    stack = []
+
+    def cur():
+        for v in reversed(stack):
+            if isinstance(v, Token):
+                return expected_state(style, v)
+        return expected_state(style, None)
+    for x in stream:
+        if isinstance(x, SAnnotationPush):
+            stack.append(x.value)
+        elif isinstance(x, SAnnotationPop):
+            stack.pop()
+        elif isinstance(x, str):
+            st = cur()
+            out.extend((st[1], st[4]) for ch in x if ch.isspace())
+        elif isinstance(x, SLine):
+            st = cur()
+            out.extend([(st[1], st[4])] * (1 + x.indent))
+    return out
+
+
 def expected_chars(stream, style):
     """[(non-whitespace char, expected state)] from the annotation structure:
     the innermost enclosing *syntax token* decides; other annotations are
@@ -156,6 +182,16 @@ def judge_colored(case, written, plain, stream, style, describe):
         if s1 != s2:
             return case.fail('C16:character-not-in-style-of-innermost-token',
                              lambda: describe() + '\nchar #%d %r: shown %r, expected %r' % (k, c1, s1, s2))
+    # blanks (incl. line breaks and indentation): background and underline show on them.
+    # Trailing whitespace is trimmed by the renderer, so only as many blanks as
+    # were written are compared, line by line from the left.
+    gotb = [(st[1], st[4]) for ch, st in chars if ch.isspace()]
+    wantb = expected_blanks(stream, style)
+    if len(gotb) == len(wantb):
+        for k, (g, w_) in enumerate(zip(gotb, wantb)):
+            if g != w_:
+                return case.fail('C16:blank-not-in-style-of-enclosing-token',
+                                 lambda: describe() + '\nblank #%d: background/underline shown %r, expected %r' % (k, g, w_))
     return True
 
 
@@ -213,6 +249,11 @@ class Other:
 
 OTHER = Other()
 
+# values a non-token annotation may have: anything (annotate takes any object),
+# including numbers equal to a Token's number and unhashable objects
+OTHERS = {'obj': OTHER, 'int3': 3, 'true': True, 'float2': 2.0, 'str': 'note',
+          'dict': {'k': 1}, 'list': [1], 'tuple': (Token.NUMBER_INT,), 'int0': 0}
+
 # skeletons: 'T<n>' token annotation number n (symbolic id), 'O' other annotation
 SKELETONS = {
     'flat': ['cat', 'a', ['T0', 'b'], 'c'],
@@ -231,7 +272,7 @@ SKELETONS = {
 }
 
 
-def build_doc(sk, tokens):
+def build_doc(sk, tokens, other=OTHER):
     if isinstance(sk, str):
         if sk == 'HARD':
             return D.HARDLINE
@@ -240,13 +281,13 @@ def build_doc(sk, tokens):
         return sk
     head = sk[0]
     if head == 'cat':
-        return D.concat([build_doc(c, tokens) for c in sk[1:]])
+        return D.concat([build_doc(c, tokens, other) for c in sk[1:]])
     if head == 'grp':
-        return D.group(build_doc(sk[1], tokens))
+        return D.group(build_doc(sk[1], tokens, other))
     if head == 'O':
-        return D.annotate(OTHER, build_doc(sk[1], tokens))
+        return D.annotate(other, build_doc(sk[1], tokens, other))
     if head.startswith('T'):
-        return D.annotate(tokens[int(head[1:])], build_doc(sk[1], tokens))
+        return D.annotate(tokens[int(head[1:])], build_doc(sk[1], tokens, other))
     raise ValueError(sk)
 
 
@@ -256,6 +297,7 @@ class DocCase(base.CaseBase):
         self.skname = params['skeleton']
         self.sk = SKELETONS[self.skname]
         self.stylename = params.get('style', 'dark')
+        self.other = OTHERS[params.get('other', 'obj')]
         self.ntok = 1 + max([int(x[1:]) for x in re.findall(r'T\d', repr(self.sk))] or [0])
 
     def pre(self, ids, w):
@@ -277,11 +319,11 @@ class DocCase(base.CaseBase):
                     tok = m
             tokens.append(tok)
         style = resolve_style(self.stylename)
-        doc = build_doc(self.sk, tokens)
+        doc = build_doc(self.sk, tokens, self.other)
         frac = 1.0 if self.native else stubs.Frac(w, w)
         written = None
-        describe = lambda: 'skeleton=%s tokens=%r style=%s w=%r\nwritten=%r' % (
-            self.skname, [t.name for t in tokens[:self.ntok]], self.stylename, w, written)
+        describe = lambda: 'skeleton=%s tokens=%r other annotation=%r style=%s w=%r\nwritten=%r' % (
+            self.skname, [t.name for t in tokens[:self.ntok]], self.other, self.stylename, w, written)
         try:
             stream = list(L.layout_smart(doc, width=w, ribbon_frac=frac))
             sink = stubs.Sink()
@@ -398,6 +440,14 @@ def cases(tier, seed):
                         'params': {'skeleton': sk, 'style': st},
                         'budget': 100.0 if tier == 'quick' else 900.0, 'path_timeout': 40.0,
                         'twin': sk == 'flat'})
+    # non-token annotations of other kinds (numbers equal to token numbers, unhashable objects, ...)
+    others = [k for k in OTHERS if k != 'obj']
+    osk = [sk for sk in SKELETONS if "'O'" in repr(SKELETONS[sk])]
+    for j, ok in enumerate(others):
+        for sk in (osk if tier != 'quick' else [osk[j % len(osk)], osk[(j + 2) % len(osk)]]):
+            out.append({'name': 'doc:%s:dark:other=%s' % (sk, ok), 'family': 'doc',
+                        'params': {'skeleton': sk, 'style': 'dark', 'other': ok},
+                        'budget': 100.0 if tier == 'quick' else 600.0, 'path_timeout': 40.0})
     return out
 
 
